@@ -217,6 +217,15 @@ let () =
   let mode, files = match args with m :: r -> (m, r) | [] -> ("replay", []) in
   if String.length mode > 8 && String.sub mode 0 8 = "monitor:" then begin
     let pid = String.sub mode 8 (String.length mode - 8) in
+    if List.mem pid ["C04"; "C06"; "C07"; "C09"; "C17"] then begin
+      List.iter (fun path ->
+          try
+            let h = Shared.read path in
+            List.iter (fun msg -> Printf.printf "MONITOR %s %s\n" path msg) (Smonitors.monitor pid h);
+            Printf.printf "STATS %s %s\n%!" path (Smonitors.stats h)
+          with Failure m -> Printf.printf "ERROR %s %s\n" path m) files;
+      exit 0
+    end;
     List.iter (fun path ->
         try
           let h = Monitors.read path in
